@@ -195,130 +195,102 @@ def run(cx, rep):
     if pc is None or rot is None:
         rep.anchor_missing("C13.1", "compression function (method using the rotate helper)")
         return
-    # three-term xor expressions
-    triples = []
-    for n in walk(pc):
-        if n["type"] == "VariableDeclarator" and n.get("init") is not None:
-            ts_ = xor_terms(n["init"])
-            if len(ts_) == 3:
-                rt = [rot_term(t, rot) for t in ts_]
-                if all(rt):
-                    triples.append((n["id"]["value"], frozenset((k, a) for k, a, _ in rt), {o for _, _, o in rt}, n))
-    want = {"sigma0": frozenset({("r", 7), ("r", 18), ("s", 3)}), "sigma1": frozenset({("r", 17), ("r", 19), ("s", 10)}),
-            "Sigma1": frozenset({("r", 6), ("r", 11), ("r", 25)}), "Sigma0": frozenset({("r", 2), ("r", 13), ("r", 22)})}
-    found = {}
-    for name, tr, ops, node in triples:
-        for wn, wt in want.items():
-            if tr == wt:
-                found[wn] = (name, ops, node)
-    for wn in want:
-        rep.ob("C13.1", "rot/%s" % wn, wn in found and len(found[wn][1]) == 1,
-               "no three-term XOR with amounts %s on a single operand (found triples %s)" % (sorted(want[wn]), [sorted(t[1]) for t in triples]), mod.loc(pc),
-               sample={wn: sorted(want[wn]), "operand": sorted(found[wn][1]) if wn in found else None})
-    rep.ob("C13.1", "rot/exactly-four", len(triples) == 4, "expected 4 three-term rotation XORs, found %d" % len(triples), mod.loc(pc))
-    # schedule operands
-    def offset_of(opnd):
-        m = re.match(r"^(\w+)\[\((\w+)-(\d+)\)\]$", opnd)
-        return (m.group(1), int(m.group(3))) if m else None
-    if "sigma0" in found and "sigma1" in found:
-        pal = ts_common.local_aliases(pc)
+    # ---- the round function, the schedule and the feed-forward, by symbolic evaluation (lib/symjs.py) -------------
+    # The flattened compression function is executed on symbols: one iteration of the round loop with the eight
+    # working variables free, one iteration of the schedule loop, the statements after the loops.  What each variable
+    # / array element / state word ends up holding is a canonical term (sums flattened and sorted, XORs of rotations of
+    # one operand as a set of amounts, bitwise functions as truth tables) and is compared with the term FIPS 180-4
+    # prescribes - whatever the names, temporaries and helper functions of the implementation are.
+    import symjs
+    from symjs import mk_sum, mk_bit
+    kname = None
+    for vn, (kind, init, decl) in mod.vars.items():
+        if init is not None and arrays and any(x is arrays[0] for x in walk(init)):
+            kname = vn
+    work = {}
+    for d in walk(pc):
+        if d["type"] == "VariableDeclarator" and d["id"].get("type") == "Identifier" and d.get("init") is not None:
+            t_ = s(unparen(d["init"]))
+            if t_.startswith("this.") and t_[5:] in state_fields:
+                work[t_[5:]] = d["id"]["value"]
+    wv = [work.get(sf) for sf in state_fields]
+    rep.ob("C13.1", "working-variables", len(state_fields) == 8 and all(wv) and len(set(wv)) == 8,
+           "the compression function must copy the eight state words into eight working variables (found %s)" % work, mod.loc(pc_orig),
+           sample={"a..h": wv})
+    loops = [n for n in walk(pc) if n["type"] in ("ForStatement", "WhileStatement", "ForOfStatement")]
 
-        def through_alias(opnd):
-            # `const w15 = words[i - 15]` read once into a local
-            return s(pal[opnd]) if opnd in pal else opnd
-        o0 = offset_of(through_alias(sorted(found["sigma0"][1])[0]))
-        o1 = offset_of(through_alias(sorted(found["sigma1"][1])[0]))
-        rep.ob("C13.1", "schedule/sigma-operands", o0 is not None and o1 is not None and o0[1] == 15 and o1[1] == 2 and o0[0] == o1[0],
-               "message schedule: sigma0 must read W[i-15] and sigma1 W[i-2] (found %s / %s)" % (o0, o1), mod.loc(found["sigma0"][2]))
-        # W[i] = W[i-16] + s0 + W[i-7] + s1
-        rec = None
-        for n in walk(pc):
-            if n["type"] == "AssignmentExpression" and o0 and s(n["left"]).startswith(o0[0] + "["):
-                terms = add_terms(n["right"])
-                if len(terms) == 4:
-                    rec = (terms, n)
-        ok = False
-        if rec and o0:
-            t = set(rec[0])
-            ok = t == {"%s[(i-16)]" % o0[0], "%s[(i-7)]" % o0[0], found["sigma0"][0], found["sigma1"][0]} or \
-                {x for x in t if not x.startswith(o0[0])} == {found["sigma0"][0], found["sigma1"][0]} and \
-                {offset_of(x)[1] for x in t if offset_of(x)} == {16, 7}
-        rep.ob("C13.1", "schedule/recurrence", ok, "message schedule must be W[i] = W[i-16] + sigma0 + W[i-7] + sigma1 (found %s)" % (rec[0] if rec else None), mod.loc(pc),
-               sample={"terms": rec[0] if rec else None})
-    # working variables via state rotation: x = y assignments inside the round loop
-    assigns = {}
-    sums = {}
-    for n in walk(pc):
-        if n["type"] == "AssignmentExpression" and n["operator"] == "=" and n["left"]["type"] == "Identifier":
-            r = unparen(n["right"])
-            if r["type"] == "Identifier":
-                assigns[n["left"]["value"]] = r["value"]
-            else:
-                sums[n["left"]["value"]] = add_terms(n["right"])
-    if "Sigma1" in found and "Sigma0" in found:
-        e_var = sorted(found["Sigma1"][1])[0]
-        a_var = sorted(found["Sigma0"][1])[0]
-        # chain: f = e, g = f, h = g ; b = a, c = b, d = c
-        def nxt(v):
-            return [k for k, val in assigns.items() if val == v]
-        f_ = nxt(e_var)
-        g_ = nxt(f_[0]) if f_ else []
-        h_ = nxt(g_[0]) if g_ else []
-        b_ = nxt(a_var)
-        c_ = nxt(b_[0]) if b_ else []
-        d_ = nxt(c_[0]) if c_ else []
-        chain_ok = all(len(x) == 1 for x in (f_, g_, h_, b_, c_, d_))
-        rep.ob("C13.1", "state-rotation", chain_ok, "working variables must rotate h=g, g=f, f=e, d=c, c=b, b=a (found assignments %s)" % assigns, mod.loc(pc),
-               sample={"a..h": [a_var, b_ and b_[0], c_ and c_[0], d_ and d_[0], e_var, f_ and f_[0], g_ and g_[0], h_ and h_[0]]})
-        if chain_ok:
-            f_, g_, h_, b_, c_, d_ = f_[0], g_[0], h_[0], b_[0], c_[0], d_[0]
-            ch_ok = maj_ok = False
-            ch_name = maj_name = None
-            for n in walk(pc):
-                if n["type"] == "VariableDeclarator" and n.get("init") is not None:
-                    ids = idents(n["init"])
-                    if sorted(ids) == sorted([e_var, f_, g_]):
-                        tt = bool_table(n["init"], [e_var, f_, g_])
-                        if tt is not None:
-                            ch_name = n["id"]["value"]
-                            ch_ok = tt == tuple((x & y) ^ ((1 - x) & z) for x, y, z in itertools.product((0, 1), repeat=3))
-                    if sorted(ids) == sorted([a_var, b_, c_]):
-                        tt = bool_table(n["init"], [a_var, b_, c_])
-                        if tt is not None:
-                            maj_name = n["id"]["value"]
-                            maj_ok = tt == tuple((x & y) ^ (x & z) ^ (y & z) for x, y, z in itertools.product((0, 1), repeat=3))
-            rep.ob("C13.1", "ch", ch_ok, "Ch(e,f,g) must be (e AND f) XOR (NOT e AND g) (truth table over the rotated working variables %s)" % [e_var, f_, g_], mod.loc(pc), sample={"ch_var": ch_name})
-            rep.ob("C13.1", "maj", maj_ok, "Maj(a,b,c) must be the majority function (truth table over %s)" % [a_var, b_, c_], mod.loc(pc), sample={"maj_var": maj_name})
-            # temp1 = h + Sigma1 + ch + K[i] + W[i]; temp2 = Sigma0 + maj; e = d + temp1; a = temp1 + temp2
-            t1 = t2 = None
-            for n in walk(pc):
-                if n["type"] == "VariableDeclarator" and n.get("init") is not None:
-                    terms = add_terms(n["init"])
-                    if len(terms) == 5:
-                        t1 = (n["id"]["value"], terms)
-                    if len(terms) == 2 and found["Sigma0"][0] in terms:
-                        t2 = (n["id"]["value"], terms)
-            kname = None
-            for vn, (kind, init, decl) in mod.vars.items():
-                if init is not None and arrays and any(x is arrays[0] for x in walk(init)):
-                    kname = vn
-            kidx = [re.match(r"^\w+\[(\w+)\]$", x).group(1) for x in (t1[1] if t1 else []) if x.startswith((kname or "?") + "[") and re.match(r"^\w+\[(\w+)\]$", x)]
-            ok1 = t1 is not None and h_ in t1[1] and found["Sigma1"][0] in t1[1] and ch_name in t1[1] and len(kidx) == 1 and \
-                any(re.match(r"^\w+\[%s\]$" % re.escape(kidx[0]), x) and not x.startswith((kname or "?") + "[") for x in t1[1])
-            rep.ob("C13.1", "temp1", ok1, "T1 must be h + Sigma1(e) + Ch + K[i] + W[i] (found %s)" % (t1,), mod.loc(pc), sample={"T1": t1})
-            ok2 = t2 is not None and set(t2[1]) == {found["Sigma0"][0], maj_name}
-            rep.ob("C13.1", "temp2", ok2, "T2 must be Sigma0(a) + Maj (found %s)" % (t2,), mod.loc(pc), sample={"T2": t2})
-            if t1 and t2:
-                rep.ob("C13.1", "e-update", set(sums.get(e_var, [])) == {d_, t1[0]}, "e must become d + T1 (found %s)" % sums.get(e_var), mod.loc(pc))
-                rep.ob("C13.1", "a-update", set(sums.get(a_var, [])) == {t1[0], t2[0]}, "a must become T1 + T2 (found %s)" % sums.get(a_var), mod.loc(pc))
-            # feed-forward: this.h_k = this.h_k + var_k
-            ff = {}
-            for n in walk(pc):
-                if n["type"] == "AssignmentExpression" and n["left"]["type"] == "MemberExpression" and n["left"]["object"]["type"] == "ThisExpression":
-                    ff[n["left"]["property"]["value"]] = add_terms(n["right"])
-            order = [a_var, b_, c_, d_, e_var, f_, g_, h_]
-            okff = len(state_fields) == 8 and all(set(ff.get(sf, [])) == {"this." + sf, order[i]} for i, sf in enumerate(state_fields))
-            rep.ob("C13.1", "feed-forward", okff, "each state word must be increased by its working variable in order a..h (found %s)" % ff, mod.loc(pc))
+    def assigned_locals(node):
+        return {unparen(x["left"])["value"] for x in walk(node) if x["type"] == "AssignmentExpression" and unparen(x["left"]).get("type") == "Identifier"}
+
+    def body_stmts(loop):
+        b_ = loop["body"]
+        return b_["stmts"] if b_.get("type") == "BlockStatement" else [b_]
+    round_loop = None
+    if all(wv):
+        for lp in loops:
+            if len(assigned_locals(lp["body"]) & set(wv)) >= 6:
+                round_loop = lp
+    rep.ob("C13.1", "round-loop", round_loop is not None, "no loop in the compression function updates the working variables", mod.loc(pc_orig))
+    if round_loop is not None:
+        va, vb, vc, vd, ve, vf, vg, vh = [("var", x) for x in wv]
+        sy = symjs.Sym(_CONSTS, rot)
+        sy.run(body_stmts(round_loop))
+        got = {x: sy.env.get(x, ("var", x)) for x in wv}
+        # locate K[i] / W[i] in what `e` became
+        idxs = [t_ for t_ in (got[wv[4]][1] if got[wv[4]][0] == "sum" else ()) if t_[0] == "idx"]
+        kterm = [t_ for t_ in idxs if t_[1] == kname]
+        wterm = [t_ for t_ in idxs if t_[1] != kname and kterm and t_[2] == kterm[0][2]]
+        rep.ob("C13.1", "round/K-and-W", len(kterm) == 1 and len(wterm) == 1,
+               "the new value of the fifth working variable must add K[i] and W[i] for the same i (found %s)" % symjs.show(got[wv[4]]), mod.loc(round_loop),
+               sample={"e'": symjs.show(got[wv[4]])})
+        if len(kterm) == 1 and len(wterm) == 1:
+            S1 = ("sigma", ve, frozenset({("r", 6), ("r", 11), ("r", 25)}))
+            S0 = ("sigma", va, frozenset({("r", 2), ("r", 13), ("r", 22)}))
+            ch = mk_bit("xor", [mk_bit("and", [ve, vf]), mk_bit("and", [symjs.Sym()._not(ve), vg])])
+            maj = mk_bit("xor", [mk_bit("and", [va, vb]), mk_bit("and", [va, vc]), mk_bit("and", [vb, vc])])
+            T1 = mk_sum([vh, S1, ch, kterm[0], wterm[0]])
+            T2 = mk_sum([S0, maj])
+            want_ = {wv[7]: vg, wv[6]: vf, wv[5]: ve, wv[4]: mk_sum([vd, T1]), wv[3]: vc, wv[2]: vb, wv[1]: va, wv[0]: mk_sum([T1, T2])}
+            names_ = "abcdefgh"
+            for i_, x in enumerate(wv):
+                rep.ob("C13.1", "round/%s" % names_[i_], got[x] == want_[x],
+                       "after one round the working variable `%s` (%s of FIPS 180-4) holds %s; SHA-256 prescribes %s" % (x, names_[i_], symjs.show(got[x]), symjs.show(want_[x])),
+                       mod.loc(round_loop), sample={"variable": names_[i_], "holds": symjs.show(got[x])[:200]})
+            # ---- schedule: W[j] = W[j-16] + sigma0(W[j-15]) + W[j-7] + sigma1(W[j-2])
+            wname = wterm[0][1]
+            sched_ok, sched_seen = False, []
+            for lp in loops:
+                if lp is round_loop:
+                    continue
+                sy2 = symjs.Sym(_CONSTS, rot)
+                # array aliases established before the loops (const words = <schedule array>)
+                for d in walk(pc):
+                    if d["type"] == "VariableDeclarator" and d["id"].get("type") == "Identifier" and d.get("init") is not None and unparen(d["init"]).get("type") == "Identifier":
+                        sy2.arrays[d["id"]["value"]] = sy2.base_name(d["init"])
+                wcanon = sy2.arrays.get(wname, wname)
+                for tgt, val, node_ in sy2.run(body_stmts(lp)):
+                    if tgt[0] == "idx" and sy2.arrays.get(tgt[1], tgt[1]) == wcanon and val[0] == "sum" and len(val[1]) == 4:
+                        j = tgt[2]
+                        W_ = lambda off: ("idx", tgt[1], "%s-%d" % (j, off))
+                        exp = mk_sum([W_(16), ("sigma", W_(15), frozenset({("r", 7), ("r", 18), ("s", 3)})), W_(7), ("sigma", W_(2), frozenset({("r", 17), ("r", 19), ("s", 10)}))])
+                        sched_seen.append(symjs.show(val))
+                        if val == exp:
+                            sched_ok = True
+            rep.ob("C13.1", "schedule/recurrence", sched_ok,
+                   "the message schedule must be W[j] = W[j-16] + sigma0(W[j-15]) + W[j-7] + sigma1(W[j-2]) with sigma0 = rotr7^rotr18^shr3, sigma1 = rotr17^rotr19^shr10 (found %s)" % (sched_seen or "no four-term store into the schedule array"),
+                   mod.loc(pc_orig), sample={"schedule": sched_seen[:1]})
+        # ---- feed-forward: this.h_k = this.h_k + working_k
+        body_ = pc["body"]["stmts"]
+        after, seen_loop = [], False
+        for st in body_:
+            if any(x is round_loop for x in walk(st)):
+                seen_loop = True
+            elif seen_loop:
+                after.append(st)
+        sy3 = symjs.Sym(_CONSTS, rot)
+        ff = {t_[1]: v_ for t_, v_, _n in sy3.run(after) if t_[0] == "var"}
+        okff = all(ff.get("this." + sf) == mk_sum([("var", "this." + sf), ("var", wv[i_])]) for i_, sf in enumerate(state_fields))
+        rep.ob("C13.1", "feed-forward", okff, "each state word must be increased by its working variable in order a..h (found %s)" % {k_: symjs.show(v_) for k_, v_ in ff.items()}, mod.loc(pc_orig))
     # every call of the compression function is handed exactly one 64-byte block
     pc_name = [mn for mn, m in w.methods.items() if m["function"] is pc_orig][0]
     buf64 = set()
@@ -438,11 +410,17 @@ def run(cx, rep):
             inner = unparen(a["arguments"][0]["expression"])
             if inner.get("type") == "ArrayExpression":
                 return len(inner["elements"])
+            if num(inner) is not None:
+                return num(inner)          # new Uint8Array(4), filled in afterwards
         return None
     for mn, m in priv.items():
         tc = this_calls(m["function"])
         if bytes_w and len(tc) == 1 and tc[0][0] == bytes_w and tc[0][1]:
-            k = of_len(tc[0][1][0])
+            arg_ = unparen(tc[0][1][0])
+            al_ = ts_common.local_aliases(m["function"])
+            if arg_.get("type") == "Identifier" and arg_["value"] in al_:
+                arg_ = al_[arg_["value"]]
+            k = of_len(arg_)
             if k == 1:
                 byte_w = mn
             elif k == 4:
@@ -484,6 +462,9 @@ def run(cx, rep):
     if lp:
         calls = [c[0] for c in this_calls(lp["function"])]
         rep.ob("C13.3", "writer/length-before-bytes", calls[:2] == [u32_w, bytes_w], "the byte length must be written before the bytes (calls %s)" % calls, mod.loc(lp))
+    # ---------------------------------------------------------------- C13.9
+    rep.rule("C13.9", "the orders the digests are computed in are total and do not depend on the host")
+    digest_order_rule(cx, rep, "C13.9")
     # ---------------------------------------------------------------- C13.8
     rep.rule("C13.8", "text reaches the digest as the UTF-8 encoding of the whole string")
     # `TextEncoder.encodeInto(s, dest)` stops at the last whole character that fits into dest and reports how much it
@@ -711,3 +692,116 @@ def check_loops(rep, cm, cname, fn):
             rep.ob("C13.3", "%s/length-prefix" % cname, ok,
                    "%s.hash256 writes the elements of `%s` without first writing its length: [a,b]+[c] and [a]+[b,c] would encode alike" % (cname, coll), cm.loc(st),
                    sample={"class": cname, "collection": coll})
+
+
+
+def digest_order_rule(cx, rep, rid):
+    """hash() and hash256() make member order irrelevant by SORTING (formats, keys, literal members) before they fold
+    or write.  That only works if the order is total and a function of the values alone:
+      (a) `x.localeCompare(y)` with one argument collates in the HOST's default locale - the digest of
+          `"a" | "B"` then depends on the machine; with any locale it still calls canonically equivalent strings
+          ("\u00e9", "e\u0301") equal, so a comparator that returns its result without a fallback is not total and
+          the (stable) sort keeps the order the members were listed in;
+      (b) `.sort()` without a comparator orders by string form: 1 and "1", null and "null" tie.  It is only total on
+          arrays of strings.
+    Decided over hash / hash256 of every runtime class and the module functions they call (both files): no
+    single-argument localeCompare; a comparator whose value is a localeCompare call has a `||` fallback; a default
+    sort is applied only to arrays of strings (string[] fields, Object.keys(..))."""
+    fam = ts_common.Family(cx)
+    mods = [fam.mod, cx.ts(HASH_TS)]
+    scopes = []
+    for cname, c in sorted(fam.classes.items()):
+        for mn in ("hash", "hash256"):
+            if mn in c.methods and c.methods[mn]["function"].get("body") is not None:
+                scopes.append(("%s.%s" % (cname, mn), c.methods[mn]["function"], fam.mod, cname))
+    # module functions reachable from those methods (by name, both modules), two levels
+    names = {}
+    for m_ in mods:
+        for fnm, d in m_.functions.items():
+            if d.get("body") is not None:
+                names[fnm] = (d, m_)
+    seen = set()
+    seen_m = {id(sc[1]) for sc in scopes}
+    owner_of = {id(sc[1]): sc[3] for sc in scopes}
+    work = [sc[1] for sc in scopes]
+    for _ in range(3):
+        nxt = []
+        for fn in work:
+            for x in walk(fn):
+                if x["type"] == "CallExpression" and unparen(x["callee"]).get("type") == "Identifier":
+                    nm = unparen(x["callee"])["value"]
+                    if nm in names and nm not in seen:
+                        seen.add(nm)
+                        scopes.append((nm, names[nm][0], names[nm][1], None))
+                        nxt.append(names[nm][0])
+                elif x["type"] == "CallExpression" and unparen(x["callee"]).get("type") == "MemberExpression" and unparen(unparen(x["callee"])["object"]).get("type") == "ThisExpression":
+                    # a private helper method of the class (`this.sortedFormats()`)
+                    r_ = tsast.resolve_local_call(fam.mod, owner_of.get(id(fn)), x) if owner_of.get(id(fn)) else None
+                    if r_ is not None and id(r_[0]) not in seen_m:
+                        seen_m.add(id(r_[0]))
+                        owner_of[id(r_[0])] = r_[1] or owner_of.get(id(fn))
+                        scopes.append(("%s.%s" % (owner_of[id(r_[0])], s(unparen(x["callee"])["property"])), r_[0], fam.mod, owner_of[id(r_[0])]))
+                        nxt.append(r_[0])
+                elif x["type"] == "Identifier" and x["value"] in names and x["value"] not in seen:
+                    # a function passed by name (`.sort(compareConst)`)
+                    seen.add(x["value"])
+                    scopes.append((x["value"], names[x["value"]][0], names[x["value"]][1], None))
+                    nxt.append(names[x["value"]][0])
+        work = nxt
+    n_sorts = 0
+    for name, fn, m_, cname in scopes:
+        for x in walk(fn):
+            if x["type"] != "CallExpression":
+                continue
+            mc = method_call(x)
+            if not mc:
+                continue
+            if mc[1] == "localeCompare":
+                n_sorts += 1
+                rep.ob(rid, "%s/localeCompare-locale" % name, len(mc[2]) >= 2,
+                       "%s orders values for a digest with `%s`: without a locale argument the collation is the host's default one, so the digest of the same type differs between machines" % (name, s(x)[:60]),
+                       m_.loc(x), sample={"where": name, "call": s(x)[:60]})
+                # totality: the comparison result must not be returned / used as the comparator's value on its own
+                par_ok = False
+                for y in walk(fn):
+                    if y["type"] == "BinaryExpression" and y["operator"] in ("||", "??") and any(z is x for z in walk(y["left"])):
+                        par_ok = True
+                rep.ob(rid, "%s/localeCompare-total" % name, par_ok,
+                       "%s uses the result of `%s` as the whole comparison: collation calls canonically equivalent strings equal, the stable sort then keeps them in the order the members were listed, and a union hashes differently depending on member order" % (name, s(x)[:60]),
+                       m_.loc(x), sample={"where": name})
+            if mc[1] == "sort" and not mc[2]:
+                n_sorts += 1
+                recv = unparen(mc[0])
+                def strings(e, depth=0):
+                    e = unparen(e)
+                    t = e.get("type")
+                    if t == "ArrayExpression":
+                        return all(el and el.get("spread") and strings(el["expression"], depth) for el in e["elements"]) if e["elements"] else True
+                    if t == "CallExpression":
+                        if s(e["callee"]) in ("Object.keys", "Object.getOwnPropertyNames"):
+                            return True
+                        m2 = method_call(e)
+                        if m2 and m2[1] in ("filter", "slice", "concat"):
+                            return strings(m2[0], depth)
+                        return False
+                    if t == "MemberExpression" and s(e).startswith("this.") and cname:
+                        ann = fam.all_fields(cname).get(s(e)[5:], (None, None))[1]
+                        ty = tsast.type_str(ann) if ann is not None else ""
+                        return ty in ("string[]", "Array<string>", "readonly string[]")
+                    if t == "Identifier" and depth < 3:
+                        al = ts_common.local_aliases(fn)
+                        if e["value"] in al:
+                            return strings(al[e["value"]], depth + 1)
+                        # a parameter declared as an array of strings
+                        for p_ in fn.get("params", []):
+                            pat = p_.get("pat", p_)
+                            if pat.get("type") == "Identifier" and pat.get("value") == e["value"]:
+                                ann = (pat.get("typeAnnotation") or {}).get("typeAnnotation")
+                                ty = tsast.type_str(ann) if ann is not None else ""
+                                return ty in ("string[]", "Array<string>", "readonly string[]", "ReadonlyArray<string>")
+                    return False
+                ok = strings(recv)
+                rep.ob(rid, "%s/default-sort-on-strings" % name, ok,
+                       "%s sorts `%s` with the default comparator, which compares string forms: values of different types with the same string form (1 and \"1\", null and \"null\") tie and keep the order the members were listed in, so the hash depends on member order" % (name, s(recv)[:50]),
+                       m_.loc(x), sample={"where": name, "sorted": s(recv)[:50]})
+    rep.floor(rid, "orderings (sort / localeCompare) in the digest code", n_sorts, 3)
